@@ -190,7 +190,7 @@ def run(chk, scratch):
             continue
         muts = [e for e in runner.load_events(ev) if e["k"] == "mut" and e["n"] is not None]
         muts.sort(key=lambda e: e["n"])
-        n_params = max([e["n"] for e in muts if e["path"].endswith(".params")] or [0])
+        n_params = max([e["n"] for e in muts if e["path"].endswith((".params", ".params.tmp"))] or [0])
         points = [e for e in muts if e["n"] > n_params]
         total_points += len(points)
         by_site = {}
@@ -207,7 +207,7 @@ def run(chk, scratch):
                     chosen.append(ns[-1])
             rest = [e["n"] for e in points if e["n"] not in chosen]
             rng.shuffle(rest)
-            budget = 26
+            budget = 20
             chosen += rest[:max(0, budget - len(chosen))]
             if len(chosen) > 72:
                 # quick tier: a seed-dependent sample of the call sites (the thorough tier runs every crash point)
@@ -283,6 +283,37 @@ def run(chk, scratch):
             shutil.rmtree(out, ignore_errors=True)
             shutil.rmtree(os.path.join(d, "saves%d" % n), ignore_errors=True)
         # source-free failpoints: the process dies at the k-th executed LINE of the repository's own code (any instruction between two
+        # a run that is itself a resumed run is killed as well (once per tier, first configuration): right after it has opened .params for
+        # rewriting, and right after its first own chromosome lock; the second --resume must still complete with the clean run's outputs
+        if cname == conf_names[0]:
+            for tag2, cfg2 in (("params", {"crash_path": ".params", "crash_path_k": 1, "crash_after": True}),
+                               ("lock", {"crash_path": "_processed", "crash_path_k": 1, "crash_after": True})):
+                out2 = os.path.join(d, "twice_" + tag2)
+                home2 = os.path.join(d, "home_twice_" + tag2)
+                shutil.copytree(os.path.join(d, "home"), home2)
+                k1 = runner.run_isoquant(args_for(cfg, d, out2, extra), home2, mon=["crash"],
+                                         cfg={"crash_root": out2, "crash_path": "_collected", "crash_path_k": 1, "crash_after": True}, events=os.path.join(d, "ev_twice1_" + tag2))
+                if k1["rc"] != 137:
+                    chk.inconclusive.append("%s: first kill of the kill-resume-kill-resume scenario not reached (exit %s)" % (cname, k1["rc"]))
+                    continue
+                k2 = runner.run_isoquant(["--resume", "-o", out2], home2, mon=["crash"], cfg=dict(cfg2, crash_root=out2), events=os.path.join(d, "ev_twice2_" + tag2))
+                if k2["rc"] != 137:
+                    chk.inconclusive.append("%s: the resumed run was not killed at its %s (exit %s)" % (cname, tag2, k2["rc"]))
+                    continue
+                k3 = runner.run_isoquant(["--resume", "-o", out2], home2, timeout=300)
+                chk.note()
+                chk.count("resumed_runs_killed_and_resumed_again")
+                wit2 = {"config": cname, "scenario": "kill, resume, kill the resumed run after " + tag2 + ", resume"}
+                if k3["rc"] is None:
+                    chk.inconclusive.append("%s: watchdog expired in the second resume" % cname)
+                elif k3["rc"] != 0:
+                    last = [l for l in k3["out"].strip().splitlines() if l.strip()][-1:] or [""]
+                    chk.violation("resume-exit-nonzero:resumed-run-killed:" + tag2, "%s: killed after the first chromosome was collected, resumed, the RESUMED run killed right after it "
+                                  "opened %s, resumed again: exit %s: %s" % (cname, ".params for rewriting" if tag2 == "params" else "its first _processed lock", k3["rc"], last[0][:200]), wit2)
+                else:
+                    for rel, why in tree_diffs(cfg, clean, out2)[:4]:
+                        chk.violation("silent-diff:resumed-run-killed:" + tag2, "%s: second resume exits 0 but %s %s" % (cname, rel, why), wit2)
+                shutil.rmtree(out2, ignore_errors=True)
         # file-system mutations, e.g. between a write and the flush that makes it durable); k is drawn uniformly after .params was written
         n_line = int(os.environ.get("VERIF_C07_NLINE", 0)) or (90 if thorough else (18 if cname in conf_names[:2] else 0))
         if n_line:
@@ -307,7 +338,7 @@ def run(chk, scratch):
             total = max([e["n"] for e in evs if e["k"] == "line_total"] or [0])
             # in scope: after .params is COMPLETE, i.e. from the first file-system mutation that follows the opening of .params
             lmuts = sorted([e for e in evs if e["k"] == "mut" and e.get("n") is not None], key=lambda e: e["n"])
-            pi = max([i for i, e in enumerate(lmuts) if e["path"].endswith(".params")] or [-1])
+            pi = max([i for i, e in enumerate(lmuts) if e["path"].endswith((".params", ".params.tmp"))] or [-1])
             at_params = (lmuts[pi + 1].get("line_n") or 0) if 0 <= pi < len(lmuts) - 1 else 0
             shutil.rmtree(out, ignore_errors=True)
             if rc_["rc"] != 0 or total <= at_params + 100:
